@@ -240,6 +240,7 @@ func runC18(c *Ctx) {
 
 	ruleLMTPLoopComplete(c)
 	ruleLMTPFlag(c)
+	ruleStreamLayersReadOnly(c)  // replies delivered together with the transport's error (server hangs up right after them) are not dropped
 	ruleLineLimitCounting(c)     // the client's reply reader sits on the same limiter: every LF resets the count, wherever the network cuts the replies
 	ruleClientDeadlinesPaired(c) // every per-recipient reply is waited for under the submission timeout
 
